@@ -2,7 +2,7 @@
 from fractions import Fraction as Fr
 import algebra as A
 from algebra import El, ZERO, ONE
-from core import (Harness, sv, sm, sq, ss, Run, Conv, run_specs, report_dropped, ret_leaves, cmp_struct, single_ret, flat, parse_guard, _path_eq_pairs, paths_agree)
+from core import (Harness, sv, sm, sq, ss, Run, Conv, run_specs, report_dropped, ret_leaves, cmp_struct, single_ret, flat, parse_guard, _path_eq_pairs, paths_agree, conjuncts)
 import facts
 import specs
 from specs import TWO_PI
@@ -28,6 +28,17 @@ def approx_eq_guards(S, cv, guards):
     out = []
     for kind, tid, want in guards:
         if kind != 'ite':
+            continue
+        cj = conjuncts(S, tid)
+        if len(cj) > 1:
+            # `c1 & c2 & c3` evaluated without short-circuit (`[bool; 3] == [true; 3]`): true settles every conjunct; false says
+            # that not all of them hold, kept as one disjunctive fact
+            gs = [parse_guard(S, cv, x) for x in cj]
+            if all(g_['kind'] in ('ulps', 'abs_diff', 'relative', 'eq') for g_ in gs):
+                if want is True:
+                    out.extend((g_, not g_['neg']) for g_ in gs)
+                elif not any(g_['neg'] for g_ in gs):
+                    out.append(({'kind': 'conj', 'parts': gs, 'text': S.show(tid)}, False))
             continue
         g_ = parse_guard(S, cv, tid)
         if g_['kind'] in ('ulps', 'abs_diff', 'relative', 'eq'):
@@ -55,6 +66,13 @@ def axis_nonzero(axis, a, eqs):
     w = [(x * El.a(sq_)).norm() for x in axis]
     zero = {}
     for g_, truth in eqs:
+        if g_['kind'] == 'conj':
+            # not every part holds: if every part is `component of w == 0`, some component of w is non-zero
+            Es = [(p_['a'] - p_['b']).norm() for p_ in g_['parts']]
+            Es = [E for E in Es if not E.zero()]          # (`0 == 0` always holds: one of the others fails)
+            if Es and all(any((not wi.zero()) and (A.eq(E, wi) or A.eq(E, -wi)) for wi in w) for E in Es):
+                return True, 'tested not all zero: %s' % g_['text'][:80]
+            continue
         E = (g_['a'] - g_['b']).norm()
         if E.zero():
             if not truth:
@@ -117,8 +135,8 @@ def check_arc(run, S, name, spec, kw):
         val = cv.val(leaf['v'])
         qv, qs = val[0], val[1]
         eqs = approx_eq_guards(S, cv, guards)
-        same = [t for g_, t in eqs if same_dir_test(g_)]
-        opp = [t for g_, t in eqs if opp_dir_test(g_)]
+        same = [t for g_, t in eqs if g_['kind'] != 'conj' and same_dir_test(g_)]
+        opp = [t for g_, t in eqs if g_['kind'] != 'conj' and opp_dir_test(g_)]
         is_same = bool(same) and same[-1]
         is_opp = bool(opp) and opp[-1]
         if is_same:
